@@ -5,6 +5,9 @@ import sys
 from . import rig as R
 
 
+STR_HOOK = None      # set by concurrent legs: called whenever the agent renders a VObj (a scheduling point)
+
+
 class VObj:
     """User object: attributes in __dict__, deterministic str()."""
 
@@ -12,7 +15,26 @@ class VObj:
         pass
 
     def __str__(self):
+        if STR_HOOK is not None:
+            STR_HOOK()
         return 'VObj'
+
+
+class Facade:
+    """What a transparent proxy claims to be."""
+
+
+class VProxy:
+    """A transparent proxy (weakref.proxy, LocalProxy, Mock(spec=..)): its __class__ names the wrapped class, its real
+    type is VProxy. A snapshot shows the real type."""
+
+    def __init__(self, n):
+        pass
+
+    def __str__(self):
+        return 'VProxy'
+
+    __class__ = property(lambda self: Facade)
 
 
 class VExc(Exception):
@@ -33,7 +55,7 @@ class VSlots:
         return 'VSlots#%d' % self.n
 
 
-MUTABLE = {'list', 'dict', 'obj', 'exc'}
+MUTABLE = {'list', 'dict', 'obj', 'exc', 'proxy'}
 
 
 class Built:
@@ -77,6 +99,8 @@ def build(inst):
             b.objs[n] = {}
         elif k == 'obj':
             b.objs[n] = VObj(n)
+        elif k == 'proxy':
+            b.objs[n] = VProxy(n)
         elif k == 'exc':
             b.objs[n] = VExc(n)
         elif k == 'hostile':
@@ -107,7 +131,7 @@ def build(inst):
             for i, c in enumerate(ch):
                 b.objs[n]['k%d' % i] = c
             b.names[n] = ['k%d' % i for i in range(len(ch))]
-        elif k == 'obj':
+        elif k in ('obj', 'proxy'):
             for i, c in enumerate(ch):
                 setattr(b.objs[n], 'a%d' % i, c)
             b.names[n] = ['a%d' % i for i in range(len(ch))]
@@ -220,7 +244,7 @@ def project(snapshot, built):
 
 def instance_header(inst, built):
     h = {k: inst[k] for k in ('kind', 'child', 'roots', 'maxVars', 'maxStr', 'maxColl', 'maxDepth')}
-    h['kind'] = ['str' if k == 'sstr' else k for k in h['kind']]
+    h['kind'] = ['str' if k == 'sstr' else 'obj' if k == 'proxy' else k for k in h['kind']]
     h['slen'] = [built.slen[n] for n in range(1, len(inst['kind']) + 1)]
     h['watch'] = list(inst.get('watch', []))
     h['wlim'] = {'maxVars': 1000, 'maxStr': 1024, 'maxColl': 10, 'maxDepth': 5}    # VariableProcessorConfig defaults
@@ -250,7 +274,8 @@ def enumerate_small(n, kinds, max_child, max_roots, vars_set, str_set, coll_set,
                                    'maxVars': mv, 'maxStr': ms, 'maxColl': mc, 'maxDepth': md}
 
 
-def random_instance(rng, max_nodes=12, kinds=('int', 'str', 'sstr', 'list', 'tuple', 'dict', 'obj', 'exc', 'hostile')):
+def random_instance(rng, max_nodes=12, kinds=('int', 'str', 'sstr', 'list', 'tuple', 'dict', 'obj', 'exc', 'hostile',
+                                               'proxy')):
     n = rng.randint(1, max_nodes)
     kind, child, slen = [], [], []
     for i in range(1, n + 1):
